@@ -17,6 +17,13 @@ H  page histories / co-occurrence (universes PAIR, HIST): the cookie table of th
    triple on one page, and histories start_page; parse()/expand(); parse() ... on one page.
    The real parser must give every construct its own written argument lists (independence of
    constructs); expected trees = TreeOf(text of that call), decided by Trace_ParserStruct.
+A  written attributes (universe ATTR): an attribute of a written structure may carry the CHARACTERS of its
+   value as atoms, its own delimiters (" ' none) and blanks around '='.  TLC enumerates value shapes (the quote
+   character of the other kind at the start / end / both / inside / alone, blanks, = > &amp; URL punctuation,
+   empty) x delimiters x the rest of the map x every site an attribute string is read at (start tag; {| |+ |-
+   ! | positions, one cell per line and || / !! separated).  Expected map = TreeOf = the written value, what
+   stands between the ONE pair of delimiters.  TLC also says whether a page is inside the statement's
+   quantifier (`strict`: URL-safe values): only then a disagreement is a VIOLATION, otherwise DRIFT.
 DRIFT: the real tree differs from the twin's tree (exact comparison) although the property holds.
 """
 from __future__ import annotations
@@ -130,6 +137,10 @@ def pipeline_job(jobs):
                         try:
                             t = ptree2.node(ctx.parse(text))
                         except Exception as e:  # noqa: BLE001
+                            if not c.get("strict", True):     # outside the statement's quantifier (TLC: UrlSafePage)
+                                summ["drift"] += 1
+                                summ["drift_samples"].append({"text": text, "twin": "parse() returns", "real": repr(e), "note": NOT_STRICT})
+                                continue
                             summ["exceptions"].append({"text": text, "exception": repr(e), "page": c["page"], "history": c["hist"] or []})
                             continue
                         items.append((i, c["page"], t))
@@ -147,7 +158,14 @@ def pipeline_job(jobs):
             c = cases[i]
             summ["shapes"].add(ptree2.shape(t))
             text = ptree2.concretise(c["text"])
-            if i in bad:
+            if i in bad and not bad[i].get("strict", True):
+                # TLC: the page holds an attribute value outside the URL-safe set the statement quantifies over;
+                # the model (the written value, character by character) predicts more than the statement says
+                summ["drift"] += 1
+                if len(summ["drift_samples"]) < 4:
+                    summ["drift_samples"].append({"text": text, "twin": ptree2.show(bad[i]["expected"]), "real": ptree2.show(t),
+                                                  "note": NOT_STRICT + attr_note(bad[i]["expected"], t)})
+            elif i in bad:
                 b = bad[i]
                 summ["bad"].append({"text": text, "expected": ptree2.show(b["expected"]), "got": ptree2.show(t),
                                     "page": c["page"], "devs": sorted(b["devs"]),
@@ -218,6 +236,8 @@ def classify(exp, got, universe) -> str:
     ek, gk = sorted(ptree2.kinds(exp)), sorted(ptree2.kinds(got))
     if ek != gk:
         return f"{universe}:kinds -{','.join(sorted(set(ek) - set(gk)))} +{','.join(sorted(set(gk) - set(ek)))}"
+    if [k for k, _ in attr_nodes(exp)] == [k for k, _ in attr_nodes(got)] and attr_nodes(exp) != attr_nodes(got):
+        return f"{universe}:attribute-map"
     return f"{universe}:same-kinds"
 
 
@@ -248,11 +268,50 @@ def argtext(largs) -> str:
     return "|".join("".join(ptree2.concretise(x["s"]) if "s" in x else "<" + x["kind"] + ">" for x in a) for a in largs)
 
 
+NOT_STRICT = "attribute value outside the URL-safe set of the statement's quantifier: DRIFT, not a violation"
+
+
+def attr_nodes(t, out=None) -> list:
+    """(kind + tag, {name: value}) of every node of an abstract tree in document order (messages only)."""
+    out = [] if out is None else out
+    if isinstance(t, list):
+        for x in t:
+            attr_nodes(x, out)
+    elif "s" not in t:
+        out.append((t["kind"] + (" " + ptree2.concretise(t["sarg"]) if t["sarg"] else ""), {a["n"]: a["v"] for a in t["attrs"]}))
+        for a in t["largs"] + t["defn"] + [t["children"]]:
+            attr_nodes(a, out)
+    return out
+
+
+def attr_note(exp, got) -> str:
+    """Words for a case TLC has rejected: the first node whose attribute map is not the written one."""
+    en, gn = attr_nodes(exp), attr_nodes(got)
+    if [k for k, _ in en] != [k for k, _ in gn]:
+        return ""
+    for (k, ea), (_, ga) in zip(en, gn):
+        if ea != ga:
+            parts = []
+            for n in ea:
+                if n not in ga:
+                    parts.append(f"{n} is missing")
+                elif ga[n] != ea[n]:
+                    how = ""
+                    if ga[n] != ea[n] and ga[n] in ea[n]:
+                        lost = ea[n].replace(ga[n], "", 1) if ga[n] else ea[n]
+                        how = (f" - the value lost {lost!r}, characters of the value itself (the value is what stands between "
+                               "the ONE pair of delimiters; a quote character of the other kind, wherever it stands, belongs to it)")
+                    parts.append(f"{n} is written {ea[n]!r} but parsed as {ga[n]!r}{how}")
+            parts += [f"{n}={ga[n]!r} was not written" for n in ga if n not in ea]
+            return f": attribute map of {k} is not exactly the written map: " + "; ".join(parts)
+    return ""
+
+
 def diagnose(exp, got, text, history) -> str:
     """Words for the message of a case TLC has rejected (never part of a verdict): which construct
     lost its written argument list, and whether it got the list of another construct of the page /
     whether the same text parses differently on a fresh page."""
-    note = ""
+    note = attr_note(exp, got)
     ec, gc = calls(exp), calls(got)
     if len(ec) == len(gc):
         for i, ((ek, ea), (gk, ga)) in enumerate(zip(ec, gc)):
@@ -399,6 +458,45 @@ def rpage(rng, thorough):
     return merge_text(page)
 
 
+# written attributes for the random pages: characters of the value, own delimiters, blanks around '='
+W_WORDS = ["w1", "a-b", "x~y", "v.1", "it", "s", "the", "dogs", "k", "amp"]
+W_PUNCT = ["'", "'", '"', "SP", "=", ":", ";", ",", "&", "(", ")", "/", ">", "%", "+"]
+
+
+def rvalue(rng, q, site):
+    """A random value (atoms) for delimiters q; word atoms never touch (canonical atomisation)."""
+    banned = {"dq": {'"'}, "sq": {"'"}, "none": {'"', "'", "SP", "=", ">"}}[q] | ({">"} if site == "tag" else set())
+    punct = [x for x in W_PUNCT if x not in banned]
+    n = rng.choice([0, 1, 1, 2, 3, 3, 4, 5]) if q == "dq" else rng.choice([1, 1, 2, 3, 3, 4, 5])
+    out = []
+    for _ in range(n):
+        word_ok = not out or out[-1] not in W_WORDS
+        a = rng.choice(W_WORDS) if word_ok and rng.random() < 0.5 else rng.choice(punct)
+        if a == "'" and out and out[-1] == "'":
+            continue
+        out.append(a)
+    if q in ("sq", "none") and not out:
+        out = [rng.choice(W_WORDS)]
+    return out
+
+
+def write_attrs(rng, x, site="table"):
+    """Post-pass over random pages: some attributes get a written value (same names, same structure)."""
+    if isinstance(x, list):
+        for y in x:
+            write_attrs(rng, y, site)
+    elif isinstance(x, dict):
+        for key, v in x.items():
+            if key in ("attrs", "tattrs", "cattrs", "rattrs") and isinstance(v, list):
+                st = "tag" if x.get("k") == "H" else "table"
+                for i, a in enumerate(v):
+                    if rng.random() < 0.4:
+                        q = rng.choice(["dq", "dq", "sq", "none"])
+                        v[i] = {"n": a["n"], "w": rvalue(rng, q, st), "q": q, "eq": rng.random() < 0.25}
+            else:
+                write_attrs(rng, v, site)
+
+
 # ---------------------------------------------------------------------------
 def run(tier: str) -> int:
     o = Outcome(PID, tier)
@@ -410,10 +508,18 @@ def run(tier: str) -> int:
               "constructs of one kind - equal up to line breaks or blanks at argument edges, case / underscore, entity "
               "spelling, argument order, an empty last argument, inner blanks, bracket kind - x 3 placements on one page) "
               "is one case; page histories (start_page, then parse()/expand() calls on the same page over the same "
-              "families) contribute one case per parse(); V: seeded random pages. distinct_nontrivial = distinct "
+              "families) contribute one case per parse(); written attributes (ATTR): value characters (other quote at "
+              "start / end / both / inside / alone, blanks, = > &amp; URL punctuation, empty) x delimiters (\" ' none, "
+              "blanks around =) x rest of the map x site (start tag alone / in text / in a cell; {| |+ |- ! | of a 2x2 "
+              "table, both separator styles) is one case each; V: seeded random pages (40 % of their attributes with "
+              "random written values). distinct_nontrivial = distinct "
               "shapes (kinds, tags, attribute counts, nesting; texts ignored) of the real trees.")
     o.assumptions = [
         "attribute names: letters, digits, - _ . ; values additionally ~ (URL-safe); one attribute map has distinct names",
+        "written attribute values: strict (VIOLATION) when made of letters, digits and ' = : ; , . - _ ~ ( ) / ? @ + * $ % "
+        "(URL-safe; the apostrophe is, the double quote, blanks, < > & are not: DRIFT); not covered: a value holding its own "
+        "delimiter, unquoted values with quotes / blanks / = / >, two adjacent apostrophes (also the empty value written '': "
+        "the italic token of wikitext), | ! { } [ ] < ` and line breaks inside a value, > inside a start tag",
         "an empty cell is written as one blank; inline (|| / !!) rows have cells of one kind (MediaWiki reads || on a ! line as !!)",
         "whitespace at block boundaries (cell, caption, element edges next to block nodes) is not content: Equiv of spec/Unparse.tla",
         "bold/italic/HTML inside template arguments stay text in this parser and are not part of the catalogue",
@@ -426,11 +532,13 @@ def run(tier: str) -> int:
         Path(tags_file).write_text(json.dumps(tag_table()))
         rng = random.Random(common.seed() * 7919 + 3)
         pages = [rpage(rng, thorough) for _ in range(4000 if thorough else 320)]
+        write_attrs(random.Random(common.seed() * 7919 + 77), pages)     # own stream: the pages stay what they were
         pf = d / "pages.json"
         pf.write_text(json.dumps(pages))
         grid = "GT" if thorough else "GQ"
         plan = [(grid, 48 if thorough else 10, "GenInv"), ("EL", 2, "GenInv"), ("CALL", 2, "GenInv"),
-                ("NEST", 2, "GenInv"), ("PAIRT" if thorough else "PAIR", 6 if thorough else 1, "GenInv"),
+                ("NEST", 2, "GenInv"), ("ATTRT" if thorough else "ATTR", 4 if thorough else 1, "GenInv"),
+                ("PAIRT" if thorough else "PAIR", 6 if thorough else 1, "GenInv"),
                 ("HISTT" if thorough else "HIST", 8 if thorough else 1, "GenInvH"),
                 ("FILE", 16 if thorough else 4, "GenInvF")]
         agg = run_plan(o, plan, known, tags_file, str(pf))
@@ -443,9 +551,12 @@ def run(tier: str) -> int:
         # The runs are independent: side by side.
         from concurrent.futures import ThreadPoolExecutor
 
-        demos = ["Demo_ParserStruct_asis", "Demo_ParserStruct_key_linebreaks"]
+        # (c) with a parse_attrs that takes the delimiters off a quoted value in a way that is right for every value
+        # made of letters only (what-if switches; shows that the universe ATTR is not vacuous).
+        demos = ["Demo_ParserStruct_asis", "Demo_ParserStruct_key_linebreaks", "Demo_ParserStruct_attr_greedy"]
         if thorough:
-            demos += ["Demo_ParserStruct_key_trims", "Demo_ParserStruct_key_kind"]
+            demos += ["Demo_ParserStruct_key_trims", "Demo_ParserStruct_key_kind",
+                      "Demo_ParserStruct_attr_everywhere", "Demo_ParserStruct_attr_anyquote"]
         with ThreadPoolExecutor(len(demos)) as ex:
             rs = list(ex.map(lambda n: tlc("Gen_ParserStruct", n + ".cfg", workers=1, check=False, env={"TAGS_FILE": tags_file}), demos))
         for name, demo in zip(demos, rs):
@@ -534,7 +645,26 @@ def selftest() -> int:
         t2 = ptree2.node(ctx.parse("{{t|a1\n}}"))
         ctx.db_conn.close()
         _, hbad = trace_items([], tags_file, [(0, p1, t1), (1, p2, t2), (2, p2, t1)])
+        # written attributes: the recorded value shortened by its quote character must be rejected, strictly when
+        # the value is URL-safe (apostrophe), as DRIFT material when it is not (blank inside)
+        def wpage(w):
+            return [{"k": "H", "tag": "span", "attrs": [{"n": "title", "w": w, "q": "dq", "eq": False}], "c": [T("x1")], "void": False}]
+
+        ctx = ptree2.new_ctx(d, "w")
+        wa = ptree2.node(ptree2.parse(ctx, '<span title="\'w1\'">x1</span>'))
+        wb = ptree2.node(ptree2.parse(ctx, '<span title="the dogs\'">x1</span>'))
+        ctx.db_conn.close()
+        wa2, wb2 = copy.deepcopy(wa), copy.deepcopy(wb)
+        wa2["children"][0]["attrs"][0]["v"] = "w1"
+        wb2["children"][0]["attrs"][0]["v"] = "the dogs"
+        pa, pb = wpage(["'", "w1", "'"]), wpage(["the", "SP", "dogs", "'"])
+        _, wbad = trace_items([], tags_file, [(0, pa, wa), (1, pa, wa2), (2, pb, wb), (3, pb, wb2)])
     badidx = set(bad)
+    print("written attribute: <span title=\"'w1'\"> / <span title=\"the dogs'\">")
+    for i, name in enumerate(["own tree", "value without its apostrophes", "own tree (blank inside)", "value without its apostrophe (blank inside)"]):
+        print(f"  {name}: " + (f"rejected (strict={wbad[i]['strict']})" if i in wbad else "accepted"))
+    if set(wbad) != {1, 3} or wbad[1]["strict"] is not True or wbad[3]["strict"] is not False:
+        return 1
     print("text:", repr(text))
     for i, (name, _) in enumerate(variants):
         print(f"  {name}: {'rejected' if i in badidx else 'accepted'}")
